@@ -23,8 +23,9 @@ cholmod_dense *__real_cholmod_l_copy_dense(cholmod_dense *, cholmod_common *);
 int __real_cholmod_l_sdmult(cholmod_sparse *, int, double *, double *, cholmod_dense *, cholmod_dense *, cholmod_common *);
 int __real_cholmod_l_free_dense(cholmod_dense **, cholmod_common *);
 int __real_cholmod_l_start(cholmod_common *);
-cholmod_factor *__real_modify_factor(cholmod_sparse *, cholmod_factor *, long *, long *, long *, long *, long *, long *, long *, long *, int, cholmod_common *);
-cholmod_dense *__real_cholesky_solve(cholmod_sparse *, cholmod_dense *, cholmod_common *, int, int);
+// weak: the iteration counters must not break the build if a refactoring makes these internal functions static
+cholmod_factor *__real_modify_factor(cholmod_sparse *, cholmod_factor *, long *, long *, long *, long *, long *, long *, long *, long *, int, cholmod_common *) __attribute__((weak));
+cholmod_dense *__real_cholesky_solve(cholmod_sparse *, cholmod_dense *, cholmod_common *, int, int) __attribute__((weak));
 cholmod_dense *__real_SuiteSparseQR_C_backslash_default(cholmod_sparse *, cholmod_dense *, cholmod_common *);
 void *__real_malloc(size_t);
 void *__real_calloc(size_t, size_t);
@@ -916,6 +917,13 @@ struct SchedHarness : Harness {
 		}
 		// after an abandoned run the CHOLMOD objects are still referenced from dead fiber stacks: leaked on purpose
 		if (o.preemptions > 0 || o.spurious_delivered > 0) ctx.seen("nontrivial", hash_json(plan));
+		// the configurations C12's quantifier singles out: 1..3 workers over 1..3 blocks of trial steps
+		int workers = (int)plan.geti("workers", 1);
+		if (workers <= 3 && G.max_blocks >= 1 && G.max_blocks <= 3) {
+			uint64_t key[3] = {o.trace_hash, (uint64_t)workers, (uint64_t)G.max_blocks};
+			ctx.seen("interleavings_1to3_workers_1to3_blocks", fnv1a(key, sizeof key));
+			ctx.count("small_config:" + std::to_string(workers) + "w" + std::to_string(G.max_blocks) + "b");
+		}
 	}
 
 	void exec_nnls(const Json &plan, const Json &prob, const SchedConfig &sc, RunCtx &ctx, const std::string &prop) {
